@@ -384,7 +384,18 @@ def _verdict(outs, how):
         if kind != "ok":
             continue
         if how == "jump":
-            vs.add("jumps" if jump == "some" else "falls-through")
+            if jump == "some":
+                vs.add("jumps")
+            else:
+                # what the instruction leaves on the operand stack when it does not jump
+                evs = [e[0] for e in ts[3] if e[0] in ("add_true", "add_false")]
+                pushed = d - (-1)  # the tested operand was popped
+                if pushed == 0:
+                    vs.add("falls-through")
+                elif pushed == 1 and evs in (["add_true"], ["add_false"]):
+                    vs.add("falls-through:" + evs[0])
+                else:
+                    vs.add("falls-through:pushes-non-boolean")
         else:
             evs = [e[0] for e in ts[3] if e[0] in ("add_true", "add_false")]
             vs.add("/".join(evs) if evs else "no-boolean")
